@@ -1,0 +1,55 @@
+//go:build verif
+
+// Contracts for the tvc verifier (/verif). Comment-only: with the `verif` tag off this file does not exist,
+// with it on it adds no code. Syntax: /verif/DESIGN.md appendix A.
+
+package main
+
+//@ for C12 C15
+
+//@ # exactly one datapath, determined solely by IP type, trunking and VLAN strip mode
+//@ pure func knownIPType(t rpc.IPType) bool = t == rpc.IPType_TypeVPCIP || t == rpc.IPType_TypeVPCENI || t == rpc.IPType_TypeENIMultiIP
+//@ pure func datapathOf(t rpc.IPType, strip types.VlanStripType, trunk bool) types.DataPath = ite(t == rpc.IPType_TypeVPCIP, types.VPCRoute, ite(t == rpc.IPType_TypeVPCENI, ite(trunk, types.Vlan, types.ExclusiveENI), ite(trunk && strip == types.VlanStripTypeVlan, types.Vlan, types.IPVlan)))
+
+//@ func getDatePath
+//@   requires knownIPType(ipType)
+//@   panics
+//@   modifies nothing
+//@   ensures result == datapathOf(ipType, vlanStripType, trunk)
+
+//@ # repeated protobuf fields never decode to nil entries
+//@ invariant elem *rpc.Route: value != nil
+
+//@ # what the daemon sent about the interface / the pod (nil-safe views of the reply)
+//@ pure func allocTrunk(a *rpc.NetConf) bool = a.ENIInfo != nil && a.ENIInfo.Trunk
+//@ pure func allocIngress(a *rpc.NetConf) uint64 = ite(a.Pod != nil, a.Pod.Ingress, 0)
+//@ pure func allocEgress(a *rpc.NetConf) uint64 = ite(a.Pod != nil, a.Pod.Egress, 0)
+
+//@ # The daemon's reply names a known IP type and carries BasicInfo whenever it carries extra routes (daemon-side contract).
+//@ func parseSetupConf
+//@   requires args != nil && alloc != nil && conf != nil && knownIPType(ipType)
+//@   requires len(alloc.ExtraRoutes) == 0 || (alloc.BasicInfo != nil && ipType != rpc.IPType_TypeVPCIP)
+//@   panics
+//@   loop 2 invariant len(routes) == rangeindex + 1
+//@   ensures result1 == nil ==> result0 != nil
+//@   ensures result1 == nil ==> result0.DP == datapathOf(ipType, conf.VlanStripType, allocTrunk(alloc))
+//@   ensures result1 == nil ==> result0.ContainerIfName == ite(alloc.IfName != "", alloc.IfName, args.IfName)
+//@   ensures result1 == nil ==> result0.DefaultRoute == alloc.DefaultRoute
+//@   ensures result1 == nil ==> result0.StripVlan == allocTrunk(alloc)
+//@   ensures result1 == nil && alloc.ENIInfo != nil ==> result0.Vid == alloc.ENIInfo.Vid && result0.ERDMA == alloc.ENIInfo.ERDMA
+//@   # limits: exactly what the daemon sent, unless the runtime passes a positive override for THAT direction (bits/s -> bytes/s)
+//@   ensures result1 == nil ==> result0.Ingress == ite(conf.RuntimeConfig.Bandwidth.IngressRate > 0, conf.RuntimeConfig.Bandwidth.IngressRate / 8, allocIngress(alloc))
+//@   ensures result1 == nil ==> result0.Egress == ite(conf.RuntimeConfig.Bandwidth.EgressRate > 0, conf.RuntimeConfig.Bandwidth.EgressRate / 8, allocEgress(alloc))
+//@   ensures result1 == nil ==> len(result0.ExtraRoutes) == len(alloc.ExtraRoutes)
+//@   ensures result1 == nil ==> result0.MTU == conf.MTU && result0.DisableCreatePeer == (ipType != rpc.IPType_TypeVPCIP && alloc.BasicInfo != nil && conf.DisableHostPeer)
+
+//@ func parseTearDownConf
+//@   requires alloc != nil && conf != nil && knownIPType(ipType)
+//@   panics
+//@   ensures result1 == nil ==> result0 != nil && result0.DP == datapathOf(ipType, conf.VlanStripType, false)
+
+//@ func parseCheckConf
+//@   requires args != nil && alloc != nil && conf != nil && knownIPType(ipType)
+//@   panics
+//@   ensures result1 == nil ==> result0 != nil && result0.DP == datapathOf(ipType, conf.VlanStripType, allocTrunk(alloc))
+//@   ensures result1 == nil ==> result0.ContainerIfName == ite(alloc.IfName != "", alloc.IfName, args.IfName) && result0.DefaultRoute == alloc.DefaultRoute && result0.TrunkENI == allocTrunk(alloc)
